@@ -62,6 +62,7 @@ class Contract:
         self.callables = {}
         self.sites = []            # (class name, clause name, expr): checked after each construction of that class
         self.site_stores = []      # (attribute, clause name, expr): checked after each store to that attribute
+        self.site_returns = []     # (text of the returned expression, clause name, expr): checked at each such `return`
         self.site_calls = []       # (callee text e.g. 't_args.append' or '_compute_type_variable_assignments', clause name, expr)
         self.global_invariants = []  # (name, expr): assumed at entry and re-assumed after every havoc (slice mode)
 
@@ -173,6 +174,8 @@ def _parse_clauses(body, c, sc, loop=None):
             c.site_calls.append((_s(a[0]), _s(a[1]), a[2]))
         elif fn == 'site_store':
             c.site_stores.append((_s(a[0]), _s(a[1]), a[2]))
+        elif fn == 'site_return':
+            c.site_returns.append((_s(a[0]), _s(a[1]), a[2]))
         elif fn == 'global_invariant':
             c.global_invariants.append((_s(a[0]), a[1]))
         elif fn == 'callable':
